@@ -32,9 +32,14 @@ def run(tier, replay_file=None):
     h2, _ = gen.histories("Abm", consts(8, 10, 400, 8), 16 if quick else 30, simulate=60 if quick else 1200,
                           seed=common.seed() + 7, cache=False)
     R.cov["bfs_histories"], R.cov["sim_histories"] = len(hs), len(h2)
+    # time steps with three decimals (dt = 0.125, 0.025, 0.2 ...): the specification counts in 1/1000 (Unit overridden)
+    RS1000 = '{<<0,1,TRUE,125>>, <<1,1,FALSE,125>>, <<0,0,TRUE,25>>, <<2,3,TRUE,250>>, <<0,1,TRUE,200>>}'
+    c3 = dict(consts(6, 6, 200, 4, runspecs=RS1000), Unit='1000', Dt100='125')
+    h3, _ = gen.histories("Abm", c3, 12 if quick else 20, simulate=30 if quick else 400, seed=common.seed() + 8, cache=False)
+    R.cov["sim_histories_fine_dt"] = len(h3)
     n_ops, steps, runs = {}, 0, 0
-    for hist, mx in [(h, 3) for h in hs] + [(h, 8) for h in h2]:
-        bad = abm_replay.replay(hist, TYPES, 100, 2, {"q", "calls", "handled"}, max_ids=mx)
+    for hist, mx, unit in [(h, 3, 100) for h in hs] + [(h, 8, 100) for h in h2] + [(h, 6, 1000) for h in h3]:
+        bad = abm_replay.replay(hist, TYPES, 125 if unit == 1000 else 100, 2, {"q", "calls", "handled"}, max_ids=mx, unit=unit)
         R.add("traces_validated_against_impl")
         for h in hist:
             n_ops[h["op"]] = n_ops.get(h["op"], 0) + 1
